@@ -41,7 +41,11 @@ impl Default for Elem {
 impl Drop for Elem {
     fn drop(&mut self) {
         ledger::on_drop(self.serial, self.magic == MAGIC);
-        fault::tick(Site::Drop);
+        // a destructor that panics while another panic is unwinding aborts the process by language rule;
+        // that is not an observation about the library, so the injected fault never fires in that situation
+        if !std::thread::panicking() {
+            fault::tick(Site::Drop);
+        }
     }
 }
 
